@@ -8,7 +8,16 @@ package pipe
 //@ arith bv
 //@ property C14
 //
+// the lane of a hash: a function of (hash, lanes) alone, so equal hashes always map to the same lane
+//@ pure nsi(index int, slotSize int) int = ite(index % slotSize < 0, -(index % slotSize), index % slotSize)
 //@ func NormalizeSlotIndex
 //@   requires slotSize > 0
 //@   ensures #range 0 <= result && result < slotSize
+//@   ensures #function result == nsi(index, slotSize)
+//@   modifies
+//
+//@ func ConvertQueueErr
+//@   requires ErrQueueFull != nil && ErrQueueClosed != nil && q.ErrReqQFull != nil && q.ErrClosed != nil
+//@   ensures #nil result == nil <==> err == nil
+//@   ensures #map (err == q.ErrReqQFull ==> result == ErrQueueFull) && (err == q.ErrClosed && err != q.ErrReqQFull ==> result == ErrQueueClosed) && (err != q.ErrReqQFull && err != q.ErrClosed ==> result == err)
 //@   modifies
